@@ -11,6 +11,7 @@
 #endif
 
 #include "muduo/net/TimerQueue.h"
+#include "muduo/base/VerifHooks.h"
 
 #include "muduo/base/Logging.h"
 #include "muduo/net/EventLoop.h"
@@ -120,6 +121,7 @@ TimerId TimerQueue::addTimer(TimerCallback cb,
   Timer* timer = new Timer(std::move(cb), when, interval);
   loop_->runInLoop(
       std::bind(&TimerQueue::addTimerInLoop, this, timer));
+  MUDUO_VERIF_POINT("TimerQueue::addTimer:handedOver", timer);
   return TimerId(timer, timer->sequence());
 }
 
